@@ -90,6 +90,7 @@ def run(ctx: Ctx) -> None:
         nontrivial=lambda c: count_meta(c[0]) > 0,
         kind=lambda c: f"{min(count_meta(c[0]), 4)}{'+' if count_meta(c[0]) > 4 else ''} metadata nodes")
     routes(ctx)
+    batch_inserts(ctx)
 
 
 def build_routes(d, rng, plain_only=False):
@@ -176,6 +177,38 @@ def routes(ctx: Ctx) -> None:
         n_dep = repr(d).count("'name':")
         if deps[0] == "ok" and n_dep and not deps[1]["dependencies"]:
             ctx.violation("dependencies added after construction are not reported", d, {})
+
+
+def batch_inserts(ctx: Ctx) -> None:
+    """insert(i, [..batch with metadata nodes..]) at every index incl. negative and out of range:
+    the rendering must be that of the same insert without the metadata nodes"""
+    from htmltools import HTMLDependency, MetadataNode, Tag, TagList
+    rng = ctx.rng
+    for _ in range(ctx.budget(400, 6000)):
+        n = rng.choice([0, 1, 2, 3])
+        base = [rng.choice(["a", "b<", Tag("i", "t", _add_ws=False), Tag("p", "q")]) for _ in range(n)]
+        batch_plain = [rng.choice(["new", Tag("b", "n", _add_ws=False), Tag("hr")]) for _ in range(rng.choice([1, 2]))]
+        batch = list(batch_plain)
+        for _ in range(rng.choice([1, 1, 2])):
+            batch.insert(rng.randrange(0, len(batch) + 1),
+                         rng.choice([MetadataNode(), HTMLDependency("d", "1.0", head="<meta>")]))
+        i = rng.randrange(-n - 2, n + 3)
+        shape = rng.choice([list, tuple, lambda x: TagList(*x)])
+        ctx.count(("batch-insert", n, i, len(batch)), True, "insert(i, batch with metadata)")
+        for recv in ("tag", "list"):
+            def mk():
+                import copy
+                items = [copy.copy(x) if isinstance(x, Tag) else x for x in base]
+                return Tag("div", *items) if recv == "tag" else TagList(*items)
+            a, b = mk(), mk()
+            r1 = safe_call(lambda: a.insert(i, shape(batch)))
+            r2 = safe_call(lambda: b.insert(i, shape(batch_plain)))
+            g, w = safe_call(lambda: a.get_html_string()), safe_call(lambda: b.get_html_string())
+            if r1[0] != r2[0] or g != w:
+                ctx.violation("insert(i, batch) places the visible nodes differently when the batch also holds metadata nodes",
+                              {"n_existing": n, "index": i, "receiver": recv,
+                               "batch": [type(x).__name__ if not isinstance(x, str) else x for x in batch]},
+                              {"impl_output": g, "expected": w})
 
 
 def replay(ctx: Ctx, path: str) -> None:
